@@ -672,8 +672,8 @@ func (e *Env) index(n *EIndex) TV {
 		}
 		if !strings.Contains(i.S, "q$") && !strings.Contains(x.S, "q$") {
 			// a present key implies a non-empty map (instance of the cardinality invariant)
-			vc.regComp("ML", arraySort(sInt, sInt))
-			vc.emit(implies(vc.mapHas(e.st, u, x.S, i.S), "(> "+sel(vc.cur(e.st, "ML"), x.S)+" 0)"))
+			mhc, _, _, _ := vc.mapComps(u)
+			vc.emit(implies(vc.mapHas(e.st, u, x.S, i.S), "(> "+sel(vc.cur(e.st, mlOf(mhc)), x.S)+" 0)"))
 		}
 		return TV{S: vc.mapGet(e.st, u, x.S, i.S), Sort: vc.enc.sortOf(u.Elem()), Ty: u.Elem()}
 	case *types.Slice:
@@ -746,9 +746,9 @@ func (e *Env) call(n *ECall) TV {
 			return TV{S: "(sl-len " + v.S + ")", Sort: sInt, Ty: intT}
 		case sInt:
 			if v.Ty != nil {
-				if _, ok := v.Ty.Underlying().(*types.Map); ok {
-					vc.regComp("ML", arraySort(sInt, sInt))
-					return TV{S: ite(eq(v.S, "0"), "0", sel(vc.cur(e.st, "ML"), v.S)), Sort: sInt, Ty: intT}
+				if mtl, ok := v.Ty.Underlying().(*types.Map); ok {
+					mhc, _, _, _ := vc.mapComps(mtl)
+					return TV{S: ite(eq(v.S, "0"), "0", sel(vc.cur(e.st, mlOf(mhc)), v.S)), Sort: sInt, Ty: intT}
 				}
 				if pt, ok := v.Ty.Underlying().(*types.Pointer); ok {
 					inner := TV{S: vc.loadPtr(e.st, v.S, pt.Elem()), Sort: vc.enc.sortOf(pt.Elem()), Ty: pt.Elem()}
@@ -1195,7 +1195,7 @@ func (e *Env) compsOfLocSpec(loc string) []string {
 			if t, _ := e.resolveType(te); t != nil {
 				if mt, ok := t.Underlying().(*types.Map); ok {
 					mh, mv, _, _ := vc.mapComps(mt)
-					return []string{mh, mv, "ML"}
+					return []string{mh, mv, mlOf(mh)}
 				}
 			}
 		}
